@@ -77,3 +77,13 @@ pub proof fn lemma_partial_is_wf(p: Partial, s: Seq<char>)
     ensures wf_partial(p),
 {
 }
+// ---- comparators: what the text denotes, as (operator, partial) / (tilde flavour, partial) / partial
+pub open spec fn g_primitive_ast(s: Seq<char>) -> Option<((Operation, PSpec), Seq<char>)> {
+    match g_operation(s) { None => None, Some((op, r)) => match g_partial(skip_ws(r)) { None => None, Some((ps, r2)) => Some(((op, ps), r2)) } }
+}
+pub open spec fn g_tilde_ast(s: Seq<char>) -> Option<((bool, PSpec), Seq<char>)> {
+    match g_tilde_gt(s) { None => None, Some((gt, r)) => match g_partial(r) { None => None, Some((ps, r2)) => Some(((gt, ps), r2)) } }
+}
+pub open spec fn g_caret_ast(s: Seq<char>) -> Option<(PSpec, Seq<char>)> {
+    match eat(s, '^') { None => None, Some(r) => g_partial(skip_ws(r)) }
+}
